@@ -13,6 +13,10 @@ def main():
     if a and a[0] == 'replay':
         d = json.load(open(a[1]))
         sys.exit(framework.replay(load(d['property']), a[1]))
+    if a and a[0] == 'pin':
+        for pid in a[1:]:
+            framework.pin(load(pid))
+        return
     pid = a[0]
     tier = os.environ.get('VERIF_TIER', 'quick')
     if '--tier' in a:
